@@ -54,4 +54,98 @@ pub mod memmem {
         }
         None
     }
+    pub fn rfind(h: &[u8], n: &[u8]) -> Option<usize> {
+        if n.len() > h.len() {
+            return None;
+        }
+        let mut i = h.len() - n.len() + 1;
+        while i > 0 {
+            i -= 1;
+            if &h[i..i + n.len()] == n {
+                return Some(i);
+            }
+        }
+        None
+    }
+}
+
+// ---- the rest of the commonly used memchr 2.7 surface, so that a change to pasfmt-core that switches to another
+// ---- search routine still compiles in the Kani work copy (same naive semantics: positions in increasing order)
+pub fn memrchr(n: u8, h: &[u8]) -> Option<usize> {
+    let mut i = h.len();
+    while i > 0 {
+        i -= 1;
+        if h[i] == n {
+            return Some(i);
+        }
+    }
+    None
+}
+pub fn memrchr2(a: u8, b: u8, h: &[u8]) -> Option<usize> {
+    let mut i = h.len();
+    while i > 0 {
+        i -= 1;
+        if h[i] == a || h[i] == b {
+            return Some(i);
+        }
+    }
+    None
+}
+pub fn memrchr3(a: u8, b: u8, c: u8, h: &[u8]) -> Option<usize> {
+    let mut i = h.len();
+    while i > 0 {
+        i -= 1;
+        if h[i] == a || h[i] == b || h[i] == c {
+            return Some(i);
+        }
+    }
+    None
+}
+/// Iterator over the positions of bytes in a needle set (at most three needles), front to back or back to front.
+pub struct Memchr<'h> {
+    h: &'h [u8],
+    needles: [u8; 3],
+    lo: usize,
+    hi: usize,
+}
+impl<'h> Memchr<'h> {
+    fn is_needle(&self, b: u8) -> bool {
+        b == self.needles[0] || b == self.needles[1] || b == self.needles[2]
+    }
+}
+impl<'h> Iterator for Memchr<'h> {
+    type Item = usize;
+    fn next(&mut self) -> Option<usize> {
+        while self.lo < self.hi {
+            let i = self.lo;
+            self.lo += 1;
+            if self.is_needle(self.h[i]) {
+                return Some(i);
+            }
+        }
+        None
+    }
+}
+impl<'h> DoubleEndedIterator for Memchr<'h> {
+    fn next_back(&mut self) -> Option<usize> {
+        while self.lo < self.hi {
+            self.hi -= 1;
+            if self.is_needle(self.h[self.hi]) {
+                return Some(self.hi);
+            }
+        }
+        None
+    }
+}
+pub fn memchr_iter(n: u8, h: &[u8]) -> Memchr<'_> {
+    Memchr { h, needles: [n, n, n], lo: 0, hi: h.len() }
+}
+pub fn memchr2_iter(a: u8, b: u8, h: &[u8]) -> Memchr<'_> {
+    Memchr { h, needles: [a, b, b], lo: 0, hi: h.len() }
+}
+pub fn memchr3_iter(a: u8, b: u8, c: u8, h: &[u8]) -> Memchr<'_> {
+    Memchr { h, needles: [a, b, c], lo: 0, hi: h.len() }
+}
+pub fn memrchr_iter(n: u8, h: &[u8]) -> core::iter::Rev<Memchr<'_>> {
+    memchr_iter(n, h).rev()
 }
